@@ -8,6 +8,7 @@ import (
 	"net/http"
 	"sort"
 	"strings"
+	"sync"
 
 	"google.golang.org/protobuf/encoding/protojson"
 	"google.golang.org/protobuf/proto"
@@ -236,6 +237,7 @@ func clip(b []byte) string {
 // ---- shared server fixture ---------------------------------------------------
 
 type fixture struct {
+	mu      sync.Mutex
 	mux     *http.ServeMux
 	wire    *Wire
 	handler func(ctx context.Context, method string, req proto.Message) (proto.Message, error)
@@ -251,9 +253,12 @@ func newFixture(unit string, hook Hook) (*fixture, error) {
 			continue
 		}
 		if err := s.Register(func(ctx context.Context, method string, req proto.Message) (proto.Message, error) {
+			f.mu.Lock()
 			f.calls = append(f.calls, method)
 			f.seen = append(f.seen, proto.Clone(req))
-			return f.handler(ctx, method, req)
+			h := f.handler
+			f.mu.Unlock()
+			return h(ctx, method, req)
 		}, f.mux, hook); err != nil {
 			return nil, fmt.Errorf("register %s: %w", s.Name, err)
 		}
